@@ -5,7 +5,7 @@ cd "$(dirname "$0")"
 export CARGO_NET_OFFLINE=true
 mkdir -p evidence replays work
 ( cd harness && cargo build --release -p lsv -p lsv-features )
-( cd harness && cargo build -q -p lsv --profile relnoassert )
+( cd harness && cargo build -q -p lsv -p lsv-features --profile relnoassert )
 ( cd harness-loom && cargo build --release )
 # C20 matrix binaries (cached; the check rebuilds them incrementally)
 ( cd harness && mkdir -p target-c20 && for cfg in "default-relnoassert|hooks ls-std|relnoassert" "nodefault-relnoassert|hooks|relnoassert" "all-relnoassert|hooks ls-std ls-serde ls-arbitrary|relnoassert" "default-devplain|hooks ls-std|devplain" "nohooks-relnoassert|ls-std|relnoassert" "nohooks-devplain|ls-std|devplain"; do
